@@ -124,6 +124,9 @@ func (s *Solver) Check() Result {
 	lines := s.readUntilMarker()
 	s.Queries++
 	s.Time += time.Since(t0)
+	if s.Log != nil {
+		fmt.Fprintf(s.Log, "; time %d us\n", time.Since(t0).Microseconds())
+	}
 	res := Unknown
 	for _, l := range lines {
 		if strings.HasPrefix(l, "(error") {
